@@ -21,7 +21,7 @@ namespace XixiKV.ConcMergeBatch
 open XixiKV.Conc (Tid Key Val upd updK Res)
 open XixiKV.ConcBatch
 
-/-- state of the merging goroutine (`isMerging` admits one at a time) -/
+/-- state of the merging goroutine (`isMerging`: one at a time) -/
 inductive MSt
   | idle
   | scanning (n : Nat) (todo : List Nat) (out : List Rec)
